@@ -102,8 +102,55 @@ def replay(cfg, env, short):
     return {"reproduced": bool(fails), "failed_clauses": [(a, str(b)[:200]) for a, b in fails[:4]], "cfg": cfg}
 
 
+def large_aux(seed=0):
+    """Many / strongly biased auxiliary units (sum over them of softplus(U.v + d) in the hundreds): the gradient of a mixed
+    state is finite there and is still the derivative of the NLL (central differences on a few entries, in the log domain
+    where the library's own NLL is finite)."""
+    from qucumber.utils import unitaries
+    rng = np.random.default_rng(seed)
+    fails = []
+    for nv, nh, na, ab in ((2, 2, 13, 30.0), (2, 1, 80, 5.0)):
+        st = C.make_state("mixed", nv, nh, na)
+        C.randomize(st, rng, 0.3)
+        st.rbm_am.aux_bias.data.fill_(ab)
+        st.rbm_ph.aux_bias.data.zero_()
+        space = st.generate_hilbert_space(nv)
+        ud = unitaries.create_dict()
+        samples = torch.tensor(rng.integers(0, 2, size=(4, nv)), dtype=torch.double)
+        bases = ["ZZ", "XZ", "ZY", "XY"]
+        barr = np.array([list(b) for b in bases])
+        got = st.compute_exact_gradients(samples, space, barr)
+        if not all(bool(torch.isfinite(g).all()) for g in got):
+            fails.append(("gradient has non-finite entries for num_aux=%d, aux_bias=%g (the NLL and its derivative are finite)" % (na, ab), None))
+            continue
+        h = 1e-4
+        for ni, net, name, j in ((0, "rbm_am", "visible_bias", 0), (0, "rbm_am", "weights_W", 1), (1, "rbm_ph", "weights_U", 0)):
+            rbm = getattr(st, net)
+            off = 0
+            for nm, p in rbm.named_parameters():
+                if nm == name:
+                    break
+                off += p.numel()
+            flat = getattr(rbm, name).data.view(-1)
+            old = float(flat[j])
+            flat[j] = old + h
+            up = nll(st, "mixed", samples, bases, space, ud)
+            flat[j] = old - h
+            dn = nll(st, "mixed", samples, bases, space, ud)
+            flat[j] = old
+            fd = (up - dn) / (2 * h)
+            g = float(got[ni][off + j])
+            if not np.isfinite(fd) or abs(fd - g) > 1e-5 * (1 + abs(fd) + abs(g)):
+                fails.append(("gradient entry %s.%s[%d] != dNLL for num_aux=%d, aux_bias=%g" % (net, name, j, na, ab), (g, fd)))
+    return fails[:4]
+
+
 def bounded(tier, seed):
     n, bad = 0, []
+    f = large_aux(seed)
+    n += 1
+    if f:
+        bad.append(("mixed", "many / strongly biased auxiliary units", f[:2]))
     cases = [("positive", [2, 3]), ("complex", [2, 2]), ("mixed", [2, 2, 2])]
     if tier != "quick":
         cases += [("positive", [4, 3]), ("complex", [3, 2]), ("complex", [4, 2]), ("mixed", [3, 2, 2])]
